@@ -95,6 +95,23 @@ def sites(tree):
         if isinstance(node, ast.keyword) and node.arg in SWAPMAP:
             for j in range(len(SWAPMAP[node.arg])):
                 out.append((path, "kwswap", j))
+        # ordering operators: a deferred call made directly, a direct notification deferred, two neighbouring statements swapped
+        if isinstance(node, ast.Expr) and isinstance(node.value, ast.Call):
+            c = node.value
+            fn = ast.unparse(c.func)
+            if fn.endswith("call_soon") and c.args:
+                out.append((path, "undefer", 0))
+            elif isinstance(c.func, ast.Attribute) and not c.keywords and not fn.endswith(("append", "add", "remove", "discard", "cancel",
+                    "clear", "info", "debug", "warning", "error", "exception", "call_soon", "call_later", "create_task", "set", "pop")) \
+                    and "log" not in fn:
+                out.append((path, "defer", 0))
+        for field, value in ast.iter_fields(node):
+            if field in ("body", "orelse", "finalbody") and isinstance(value, list):
+                for j in range(len(value) - 1):
+                    a, b = value[j], value[j + 1]
+                    if isinstance(a, (ast.Expr, ast.Assign, ast.AugAssign)) and isinstance(b, (ast.Expr, ast.Assign, ast.AugAssign)) \
+                            and not (isinstance(a, ast.Expr) and isinstance(a.value, ast.Constant)):
+                        out.append((path + [(field, j)], "swapstmt", 0))
         if isinstance(node, ast.Call) and len(node.args) >= 2 and not node.keywords and all(
                 isinstance(a, (ast.Name, ast.Attribute)) for a in node.args[:2]):
             out.append((path, "argswap", 0))
@@ -193,6 +210,22 @@ def mutate(src, path, kind, var):
     elif kind == "argswap":
         desc = "swap first two arguments of " + ast.unparse(node.func)[:40]
         node.args[0], node.args[1] = node.args[1], node.args[0]
+    elif kind == "undefer":
+        c = node.value
+        desc = "call directly instead of call_soon: " + ast.unparse(c.args[0])[:50]
+        node.value = ast.Call(func=c.args[0], args=c.args[1:], keywords=[])
+    elif kind == "defer":
+        c = node.value
+        desc = "defer with call_soon: " + ast.unparse(c.func)[:50]
+        node.value = ast.Call(func=ast.Attribute(value=ast.Call(func=ast.Attribute(value=ast.Name(id="asyncio", ctx=ast.Load()),
+                              attr="get_event_loop", ctx=ast.Load()), args=[], keywords=[]), attr="call_soon", ctx=ast.Load()),
+                              args=[c.func] + list(c.args), keywords=[])
+    elif kind == "swapstmt":
+        parent = get(tree, path[:-1])
+        f, j = path[-1]
+        lst = getattr(parent, f)
+        desc = "swap statements: " + ast.unparse(lst[j])[:35] + " <-> " + ast.unparse(lst[j + 1])[:35]
+        lst[j], lst[j + 1] = lst[j + 1], lst[j]
     elif kind == "augop":
         old = type(node.op).__name__
         node.op = ast.Sub() if isinstance(node.op, ast.Add) else ast.Add()
